@@ -39,7 +39,7 @@ type C14Case struct {
 	Prog *gen.ProgCase `json:"prog,omitempty"`
 }
 
-var c14Places = []string{"text", "literal", "string", "string-esc", "mapkey", "css", "msgtext", "global", "param-content", "switch-case", "mapvalue", "listitem"}
+var c14Places = []string{"text", "literal", "string", "string-esc", "mapkey", "css", "css-base", "msgtext", "global", "global-list", "global-map", "param-content", "switch-case", "mapvalue", "listitem"}
 
 var c14Pieces = []string{"'", "\"", "\\", "\n", "\r", "\t", "\u2028", "\u2029", "</script>", "<!--", "]]>", "𝄞", "\U0010FFFF", "\U000E0001", "é", "日本", "a", "b", " ", "0", "=", "&", "<", ">", "/", "`", "${x}", "\x00", "\x01", "\x1f", "\x7f", "\u0085", " ", "\ufeff", "\\n", "\\u0041", "'+alert(1)+'", "*/", "/*", "//", "{", "}", ";", ":", ",", "-->", "\v", "\f", "\b", "%", "$", "#",
 	"1a", "010", "1e1", "0x10", "00", "1", "-1", "1.5", "class", "default", "function", "constructor", "toString", "hasOwnProperty", "__proto__", "prototype", "length", "a-b", "a.b", "\u00e9", "é",
@@ -95,7 +95,7 @@ func admit(l C14Lit) (src string, want string, okPlace bool) {
 	case "literal":
 		s = strings.ReplaceAll(s, "{/literal}", "{/ literal}")
 		return s, s, true
-	case "css":
+	case "css", "css-base":
 		s = strings.TrimSpace(strings.NewReplacer("}", ")", ",", ";", "{", "(").Replace(s))
 		if s == "" {
 			s = "c"
@@ -140,10 +140,25 @@ func buildC14(c C14Case) (gen.ProgCase, string) {
 				ref.Cmd{K: "print", Expr: &ref.Expr{Op: "ref", Name: v, Access: []ref.Access{{Kind: "index", Index: 1}}}, Directives: noesc})
 		case "css":
 			body = append(body, ref.Cmd{K: "css", Text: src})
+		case "css-base":
+			// the class name behind a base expression
+			body = append(body, ref.Cmd{K: "css", Expr: str("b", 0), Text: src})
+			w = "b-" + w
 		case "global":
 			name := fmt.Sprintf("app.G%d", i)
 			globals[name] = ref.S(src)
 			body = append(body, ref.Cmd{K: "print", Expr: &ref.Expr{Op: "global", Name: name}, Directives: noesc})
+		case "global-list":
+			// a global whose value is a list (the same name has another value in the next bundle)
+			name := fmt.Sprintf("app.L%d", i)
+			globals[name] = ref.L(ref.S("x"), ref.S(src))
+			body = append(body, ref.Cmd{K: "let", Var: v, Expr: &ref.Expr{Op: "global", Name: name}},
+				ref.Cmd{K: "print", Expr: &ref.Expr{Op: "ref", Name: v, Access: []ref.Access{{Kind: "index", Index: 1}}}, Directives: noesc})
+		case "global-map":
+			name := fmt.Sprintf("app.M%d", i)
+			globals[name] = ref.M(map[string]ref.Value{"k": ref.S(src), "other": ref.I(1)})
+			body = append(body, ref.Cmd{K: "let", Var: v, Expr: &ref.Expr{Op: "global", Name: name}},
+				ref.Cmd{K: "print", Expr: &ref.Expr{Op: "ref", Name: v, Access: []ref.Access{{Kind: "key", Key: "k"}}}, Directives: noesc})
 		case "param-content":
 			body = append(body, ref.Cmd{K: "call", Call: &ref.Call{Target: c.Namespace + ".echo", Params: []ref.Param{{Key: "v", IsBlock: true, Content: []ref.Cmd{{K: "literal", Text: strings.ReplaceAll(src, "{/literal}", "{/ literal}")}}}}}})
 			w = strings.ReplaceAll(src, "{/literal}", "{/ literal}")
